@@ -131,14 +131,24 @@ func VerifC20Recycle() {
 	var okSince []bool // per armed timer: a successful completion happened since it was armed
 	exists := true
 	for k := 0; k < K; k++ {
-		switch rt.Choice(3) {
+		switch rt.Choice(3 + rt.Param("RELOAD")) {
+		case 3: // the resource's rule is cleared and loaded again: the node breakers are dropped and lazily re-created,
+			// the recycler and its armed timers live on
+			ClearRuleOfResource("O")
+			if !verifLoadOutlierRule(0.5, false) {
+				rt.Assert(false, "LoadRules failed for a valid rule")
+				return
+			}
+			exists = false
+			rt.Reach("c20.reloaded")
 		case 0: // reported as an outlier again
 			rec.scheduleNodes([]string{"n0"})
 			for len(okSince) < rt.Timers() {
 				okSince = append(okSince, false)
 			}
 		case 1: // completes a request successfully
-			if exists {
+			if exists || rt.Param("RELOAD") != 0 {
+				exists = true // a completion makes an unknown node known
 				ctx := base.NewEmptyEntryContext()
 				ctx.Resource = base.NewResourceWrapper("O", base.ResTypeRPC, base.Outbound)
 				ctx.RuleCheckResult = base.NewTokenResultPass()
